@@ -144,10 +144,15 @@ def gen_combinators(repo):
     out.append(closure('product', 'deriv', 'product_deriv', ['a', 'b', 'deriv_a', 'deriv_b'], {}))
     out.append(closure('product', 'deriv2', 'product_deriv2', ['a', 'b', 'deriv_a', 'deriv_b', 'deriv2_a', 'deriv2_b'], {}))
     # pow: a(r)**b(r) is a real power (Rpower), defined for a(r) > 0
+    # _scaled_log(x, ar) is x*log(ar), written so that a zero x gives zero without evaluating log (fix for a negative base); over the
+    # reals, with the total ln, it IS x * ln ar: its body is asserted and its calls are translated as that product
+    from py2coq import assert_body
+    assert_body(repo, INIT, '_scaled_log', 'if x == 0.0:\n    return 0.0\nreturn x * math.log(ar)')
+    SL = {'_scaled_log': ('(%s * (ln %s))', 2)}
     out.append(closure('pow', 'potential', 'pow_call', ['a', 'b'], {}))
-    out.append(closure('pow', 'deriv', 'pow_deriv', ['a', 'b', 'deriv_a', 'deriv_b'], {'potential': ('pow_call a b', 1)}))
+    out.append(closure('pow', 'deriv', 'pow_deriv', ['a', 'b', 'deriv_a', 'deriv_b'], dict(SL, potential=('pow_call a b', 1))))
     out.append(closure('pow', 'deriv2', 'pow_deriv2', ['a', 'b', 'deriv_a', 'deriv_b', 'deriv2_a', 'deriv2_b'],
-                       {'potential': ('pow_call a b', 1), 'deriv': ('pow_deriv a b deriv_a deriv_b', 1)}))
+                       dict(SL, potential=('pow_call a b', 1), deriv=('pow_deriv a b deriv_a deriv_b', 1))))
     # the wiring: deriv_a = gradient(a), deriv2_a = gradient(deriv_a), and the hasattr tests
     for outer in ('plus', 'product', 'pow'):
         src = ast.unparse(load_function(repo, INIT, outer))
